@@ -203,3 +203,89 @@ pub fn gnu_complete<const NB: usize, const NL: usize, const NS: usize, const SO:
     }
 }
 
+
+/// Lean completeness check for the quick tier: ELF32 little-endian, one bucket, one bloom word, TWO hashed symbols with
+/// fixed-length two-byte names over the full non-NUL alphabet (so djb2 collisions such as "az"/"bY" and names whose two
+/// bloom bits coincide are inside the space), bloom shift symbolic 0..31, symoffset 1. The present symbol k is found at
+/// the first index bearing its name.
+#[kani::proof]
+#[kani::unwind(6)]
+pub fn complete_lean_two_byte_names() {
+    let shift: u32 = kani::any();
+    kani::assume(shift < 32);
+    let n0: [u8; 2] = kani::any();
+    let n1: [u8; 2] = kani::any();
+    kani::assume(n0[0] != 0 && n0[1] != 0 && n1[0] != 0 && n1[1] != 0);
+    let h0 = ref_gnu_hash(&n0);
+    let h1 = ref_gnu_hash(&n1);
+    let strs: [u8; 7] = [0, n0[0], n0[1], 0, n1[0], n1[1], 0];
+    let mut syms = [0u8; 48];
+    put_u32(&mut syms, 16, 1, true);
+    put_u32(&mut syms, 32, 4, true);
+    // nbucket=1, symoffset=1, bloom_size=1, shift | bloom word | bucket[0]=1 | chain[0], chain[1]
+    let mut tab = [0u8; 32];
+    put_u32(&mut tab, 0, 1, true);
+    put_u32(&mut tab, 4, 1, true);
+    put_u32(&mut tab, 8, 1, true);
+    put_u32(&mut tab, 12, shift, true);
+    let word: u32 = (1u32 << (h0 % 32)) | (1u32 << ((h0 >> shift) % 32)) | (1u32 << (h1 % 32)) | (1u32 << ((h1 >> shift) % 32));
+    put_u32(&mut tab, 16, word, true);
+    put_u32(&mut tab, 20, 1, true);
+    put_u32(&mut tab, 24, h0 & !1, true);
+    put_u32(&mut tab, 28, h1 | 1, true);
+    let e = AnyEndian::Little;
+    let symtab: SymbolTable<'_, AnyEndian> = ParsingTable::new(e, Class::ELF32, &syms);
+    let strtab = StringTable::new(&strs);
+    let t = GnuHashTable::new(e, Class::ELF32, &tab).unwrap();
+    let second: bool = kani::any();
+    let q = if second { n1 } else { n0 };
+    let same = n0[0] == n1[0] && n0[1] == n1[1];
+    let expect = if second && !same { 2 } else { 1 };
+    match t.find(&q, &symtab, &strtab) {
+        Ok(Some((idx, _))) => {
+            assert!(idx == expect);
+            kani::cover!(second && !same && h0 == h1, "second of two names with colliding djb2 hashes found");
+            kani::cover!(shift == 0 && second, "bloom shift 0");
+        }
+        _ => {
+            assert!(false);
+        }
+    }
+}
+
+/// Lean absent-name check: same table; a two-byte name different from both present names is not found, including names
+/// that collide with a present one in hash, bucket and bloom bits.
+#[kani::proof]
+#[kani::unwind(6)]
+pub fn absent_lean_two_byte_names() {
+    let shift: u32 = kani::any();
+    kani::assume(shift < 32);
+    let n0: [u8; 2] = kani::any();
+    let n1: [u8; 2] = kani::any();
+    let q: [u8; 2] = kani::any();
+    kani::assume(n0[0] != 0 && n0[1] != 0 && n1[0] != 0 && n1[1] != 0 && q[0] != 0 && q[1] != 0);
+    kani::assume(!(q[0] == n0[0] && q[1] == n0[1]) && !(q[0] == n1[0] && q[1] == n1[1]));
+    let h0 = ref_gnu_hash(&n0);
+    let h1 = ref_gnu_hash(&n1);
+    let strs: [u8; 7] = [0, n0[0], n0[1], 0, n1[0], n1[1], 0];
+    let mut syms = [0u8; 48];
+    put_u32(&mut syms, 16, 1, true);
+    put_u32(&mut syms, 32, 4, true);
+    let mut tab = [0u8; 32];
+    put_u32(&mut tab, 0, 1, true);
+    put_u32(&mut tab, 4, 1, true);
+    put_u32(&mut tab, 8, 1, true);
+    put_u32(&mut tab, 12, shift, true);
+    let word: u32 = (1u32 << (h0 % 32)) | (1u32 << ((h0 >> shift) % 32)) | (1u32 << (h1 % 32)) | (1u32 << ((h1 >> shift) % 32));
+    put_u32(&mut tab, 16, word, true);
+    put_u32(&mut tab, 20, 1, true);
+    put_u32(&mut tab, 24, h0 & !1, true);
+    put_u32(&mut tab, 28, h1 | 1, true);
+    let e = AnyEndian::Little;
+    let symtab: SymbolTable<'_, AnyEndian> = ParsingTable::new(e, Class::ELF32, &syms);
+    let strtab = StringTable::new(&strs);
+    let t = GnuHashTable::new(e, Class::ELF32, &tab).unwrap();
+    let r = t.find(&q, &symtab, &strtab);
+    assert!(matches!(r, Ok(None)));
+    kani::cover!(ref_gnu_hash(&q) == h0, "absent name whose djb2 hash collides with a present one");
+}
